@@ -97,6 +97,19 @@ CLAIMED = {
                             "probing oracle only (tests, not theorems)."),
         technique="Lean 4 proof over symbolically traced update + limit (per class) + linear probing oracle",
         design="5/C04"),
+    "C15": dict(
+        text=("Lean theorems, for any linearly ordered value type and any step history, about the running-maximum fold "
+              "the assembly applies after every step: the stored value dominates every cell of every plane, it is "
+              "attained by a recorded plane (so the stored height / radial profile belong to a plane where it occurred), "
+              "it is exactly the maximum once any value exceeds the initial 0.0, and later planes with an equal value do "
+              "not replace it (first occurrence).  The fold model reproduces Assembly._peak bit-exactly on the histories "
+              "of real sweeps recorded inside Assembly.calculate, and the summary tables are parsed and compared with the "
+              "state."),
+        note=COMMON_NOTE + ("T3 hand model + trace validation (fields recorded right after Assembly.calculate, incl. "
+                            "multi-region assemblies whose duct count changes, pin models) and an independent Python "
+                            "evaluation of the property on the same histories.  Table layout is parsed, not modelled."),
+        technique="Lean 4 proof (fold induction) over hand model + trace validation against real sweeps",
+        design="5/C15"),
 }
 
 REASONS_PENDING = "check not built yet in this session (work in progress, see DESIGN.md section 12)"
